@@ -653,3 +653,37 @@ def run_opt_cursor(run, P):
                               '`%s` steps over an encoded option by its VALUE length plus a constant: options with a value of 13 bytes or more have a longer header '
                               '(coap_opt_size() knows), so the cursor stops inside the option and the next one is written over its tail' % short(t)[:70], [])
     run.require_count(n >= 1 or run.fixture_mode or run.cfg != 'base', 'R-CODEC-TAB(10): no cursor advanced by coap_opt_size() found (expected backup_segment)')
+
+
+# RFC 7252 Table 4, RFC 7641 (Observe), RFC 7959 (Block1/2, Size2), RFC 7967 (No-Response), RFC 8613 (OSCORE), RFC 8768 (Hop-Limit),
+# RFC 9175 (Echo, Request-Tag), RFC 9177 (Q-Block1/2): option number -> (minimum, maximum) value length in bytes
+RFC_OPTION_LENGTHS = {
+    1: (0, 8), 3: (1, 255), 4: (1, 8), 5: (0, 0), 6: (0, 3), 7: (0, 2), 8: (0, 255), 9: (0, 255), 11: (0, 255), 12: (0, 2), 14: (0, 4),
+    15: (0, 255), 16: (1, 1), 17: (0, 2), 19: (0, 3), 20: (0, 255), 23: (0, 3), 27: (0, 3), 28: (0, 4), 31: (0, 3), 35: (1, 1034),
+    39: (1, 255), 60: (0, 4), 252: (1, 40), 258: (0, 1), 292: (0, 8),
+}
+
+
+def run_option_limits(run, P):
+    """R-CODEC-TAB (11): the per-option length limits the decoder enforces - (min, max) per option number, extracted from the switch of
+    coap_pdu_parse_opt_base() by running the typestate solver over it with interval facts on the length parameter - equal the RFC tables
+    row by row.  A row that is too tight rejects a well-formed message, a row that is too loose or missing accepts one outside the limits.
+    Option numbers the RFC table above does not list are counted and not judged."""
+    run.rule('R-CODEC-TAB')
+    from rules import r_range
+    from core.facts import AnalysisBroken
+    tab = r_range.option_length_table(P)
+    if not tab:
+        raise AnalysisBroken('R-CODEC-TAB (11): the option length table of coap_pdu_parse_opt_base could not be extracted')
+    for num, want in sorted(RFC_OPTION_LENGTHS.items()):
+        got = tab.get(num)
+        run.instance('R-CODEC-TAB', 'option %d: decoder accepts lengths %s, RFC %d-%d' % (num, ('%d-%d' % got) if got else 'any', want[0], want[1]))
+        ok = got == want
+        run.oblige('R-CODEC-TAB', ok, 'option-length-row:%d' % num)
+        if not ok:
+            f = P.func('coap_pdu_parse_opt_base')
+            run.violation('R-CODEC-TAB', 'coap_pdu_parse_opt_base', f['loc'], 'option-length-row:%d' % num,
+                          'the decoder accepts value lengths %s for option %d, the RFC table says %d-%d: %s' % (
+                              ('%d-%d' % got) if got else 'of any size (no row)', num, want[0], want[1],
+                              'well-formed messages are rejected' if got and (got[0] > want[0] or got[1] < want[1]) else 'messages outside the per-option limits are accepted'))
+    run.stats['option_length_rows_not_judged'] = len(set(tab) - set(RFC_OPTION_LENGTHS))
